@@ -75,7 +75,8 @@ func vReplayOne(path string) (outcome, detail string) {
 				}
 				return
 			}
-			ch <- res{"ok", strings.Join(vR.reached, ",")}
+			ob, _ := json.Marshal(vR.obs)
+			ch <- res{"ok", strings.Join(vR.reached, ",") + " ||OBS|| " + string(ob)}
 		}()
 		vReset(&rf)
 		h()
